@@ -227,8 +227,12 @@ def partitions(ck, an):
             lo, hi = min(lo, pc[e][0]), max(hi, pc[e][1])
     ck.check(hi == 1, "PATHCOUNT", "S2.at-most-one-partition", subj, fa.loc(loop), "an event is appended to at most one partition", f"an event can be appended {hi} times", construct=stmt_text(loop))
     # every skip inside the loop is the after-grid filter
+    def _files_or_skips(n_):
+        # a branch decides whether / where an event is filed only if it appends, skips or raises; one that merely computes a local does not
+        return any(isinstance(x, (ast.Continue, ast.Break, ast.Raise, ast.Return)) or (isinstance(x, ast.Call) and isinstance(x.func, ast.Attribute) and x.func.attr in ("append", "appendleft", "extend", "insert"))
+                   for b_ in n_.body + n_.orelse for x in ast.walk(b_))
     for n in ast.walk(loop):
-        if isinstance(n, ast.If):
+        if isinstance(n, ast.If) and _files_or_skips(n):
             c = fa.sym.cmp(n.test)
             kind = None
             evk = fa.sym.canon(ast.Name(id=ev, ctx=ast.Load()), fa.cfg.node_of(n.test).id)
